@@ -4,6 +4,7 @@ package tables
 
 import (
 	"encoding/binary"
+	"errors"
 	"fmt"
 )
 
@@ -57,8 +58,26 @@ type ScriptList struct {
 	Scripts []Script          `isOpaque:""`
 }
 
+// parsingBudget is the total binary size accepted for the tables reached through the
+// offsets of one list stored in [src] : in a valid font, these tables do not overlap (or
+// are shared a few times), so that their total size is about len(src).
+// With invalid offsets, each of the 65535 records of a list could point to the same large region,
+// itself a list with the same issue : without budget, the parsing time and memory
+// would be quadratic or cubic in the font size.
+// The values are the ones of the Harfbuzz sanitizer (HB_SANITIZE_MAX_OPS_FACTOR, HB_SANITIZE_MAX_OPS_MIN).
+func parsingBudget(src []byte) int {
+	const (
+		maxOpsFactor = 64
+		maxOpsMin    = 16384
+	)
+	return maxOpsFactor*len(src) + maxOpsMin
+}
+
+var errOverlappingOffsets = errors.New("invalid offsets (overlapping tables)")
+
 func (sl *ScriptList) parseScripts(src []byte) error {
 	sl.Scripts = make([]Script, len(sl.Records))
+	budget := parsingBudget(src)
 	for i, rec := range sl.Records {
 		var err error
 		if L := len(src); L < int(rec.Offset) {
@@ -67,6 +86,9 @@ func (sl *ScriptList) parseScripts(src []byte) error {
 		sl.Scripts[i], _, err = ParseScript(src[rec.Offset:])
 		if err != nil {
 			return err
+		}
+		if budget -= sl.Scripts[i].binarySize(); budget < 0 {
+			return errOverlappingOffsets
 		}
 	}
 	return nil
@@ -80,6 +102,7 @@ type Script struct {
 
 func (sc *Script) parseLangSys(src []byte) error {
 	sc.LangSys = make([]LangSys, len(sc.LangSysRecords))
+	budget := parsingBudget(src)
 	for i, rec := range sc.LangSysRecords {
 		var err error
 		if L := len(src); L < int(rec.Offset) {
@@ -89,8 +112,23 @@ func (sc *Script) parseLangSys(src []byte) error {
 		if err != nil {
 			return err
 		}
+		if budget -= sc.LangSys[i].binarySize(); budget < 0 {
+			return errOverlappingOffsets
+		}
 	}
 	return nil
+}
+
+// binarySize returns the size of the script table and its language systems
+func (sc *Script) binarySize() int {
+	size := 4 + 6*len(sc.LangSysRecords)
+	if sc.DefaultLangSys != nil {
+		size += sc.DefaultLangSys.binarySize()
+	}
+	for _, ls := range sc.LangSys {
+		size += ls.binarySize()
+	}
+	return size
 }
 
 type LangSys struct {
@@ -99,6 +137,8 @@ type LangSys struct {
 	FeatureIndices       []uint16 `arrayCount:"FirstUint16"` // [featureIndexCount]	Array of indices into the FeatureList, in arbitrary order
 }
 
+func (ls *LangSys) binarySize() int { return 6 + 2*len(ls.FeatureIndices) }
+
 type FeatureList struct {
 	Records  []TagOffsetRecord `arrayCount:"FirstUint16"` // Array of FeatureRecords — zero-based (first feature has FeatureIndex = 0), listed alphabetically by feature tag
 	Features []Feature         `isOpaque:""`
@@ -106,6 +146,7 @@ type FeatureList struct {
 
 func (fl *FeatureList) parseFeatures(src []byte) error {
 	fl.Features = make([]Feature, len(fl.Records))
+	budget := parsingBudget(src)
 	for i, rec := range fl.Records {
 		var err error
 		if L := len(src); L < int(rec.Offset) {
@@ -114,6 +155,9 @@ func (fl *FeatureList) parseFeatures(src []byte) error {
 		fl.Features[i], _, err = ParseFeature(src[rec.Offset:])
 		if err != nil {
 			return err
+		}
+		if budget -= 4 + 2*len(fl.Features[i].LookupListIndices); budget < 0 {
+			return errOverlappingOffsets
 		}
 	}
 	return nil
